@@ -75,14 +75,29 @@ func Setup() {
 		composed = append(composed, row)
 	}
 	fnStep, fnArg = nil, nil
-	for _, f := range []string{"string", "number", "local-name", "name", "namespace-uri", "string-length", "normalize-space"} {
-		p := spec.AbsP(dos, spec.S("child", tNode))
-		s1 := spec.Render(p) + "/" + f + "()"
-		g1 := xsel.MustBuildExpr(s1)
-		fnStep = append(fnStep, rel{src: s1, g: &g1})
-		s2 := f + "(" + spec.Render(p) + ")"
-		g2 := xsel.MustBuildExpr(s2)
-		fnArg = append(fnArg, rel{src: s2, g: &g2})
+	fnPaths := []spec.Expr{
+		spec.AbsP(dos, spec.S("child", tNode)),
+		spec.AbsP(dos, spec.S("child", tNode), spec.S("ancestor", tAny)),              // ends in a reverse axis
+		spec.AbsP(dos, spec.S("child", tNode), spec.S("preceding-sibling", tNode)),    // reverse
+		spec.AbsP(dos, spec.S("child", tAny), spec.S("preceding", tAny)),              // reverse
+		spec.AbsP(dos, spec.S("attribute", tAny), spec.S("ancestor-or-self", tNode)),  // reverse, starts at attributes
+		spec.AbsP(dos, spec.S("child", tAny, last), spec.S("ancestor-or-self", tAny)), // reverse after a predicate
+		spec.AbsP(dos, spec.S("attribute", tAny)),
+		spec.Rel(spec.S("ancestor-or-self", tNode)), // relative: evaluated from the root
+	}
+	for k, p := range fnPaths {
+		fns := []string{"string", "number", "local-name", "name", "namespace-uri", "string-length", "normalize-space"}
+		if k > 0 {
+			fns = []string{"string", "name", "local-name", "namespace-uri"}
+		}
+		for _, f := range fns {
+			s1 := spec.Render(p) + "/" + f + "()"
+			g1 := xsel.MustBuildExpr(s1)
+			fnStep = append(fnStep, rel{src: s1, g: &g1})
+			s2 := f + "(" + spec.Render(p) + ")"
+			g2 := xsel.MustBuildExpr(s2)
+			fnArg = append(fnArg, rel{src: s2, g: &g2})
+		}
 	}
 }
 
